@@ -9,13 +9,17 @@ E1 (sharded, exhaustive over stated finite spaces, reference = mc/ref_c09.py + r
              ranks beyond 2^53), structured shapes, sizes 31..34, 255..258, 300
   rank_reject  ranks outside 0..n!-1 (and negative ranks without a length) are not accepted
   order      <, <=, >, >= between Perms == comparison of ranks (all pairs); sorted/min/max
-  std        Perm.to_standard on all sequences over small alphabets, ten value/container
+  std        Perm.to_standard on all sequences over small alphabets, thirteen value/container
              variants (ints, floats, bools, strings, tuples, mixed, generators ...), aliases
   notation   from_string(str(p)), from_string(digits), eval(repr(p)), one_based, from_integer
              (1-based; 0-based when representable), from_iterable_validated, to_standard
   validated  from_iterable_validated accepts exactly the bijections among all tuples over
              {-1..n}^n (ValueError otherwise), TypeError for one non-integer entry
   mesh       MeshPatt.unrank/rank/of_length: bijection, order, documented bit layout, rejection
+  forms      to_standard / from_iterable_validated / generators / rank / unrank / MeshPatt in every
+             argument form (containers, one-shot iterators, element types, keywords, aliases)
+  aliasing   whatever mutable container a query hands out is damaged in place, then asked again
+  abort      _Abort raised at every call event inside an operation, then read back
 E2 (BFS over histories on the process-wide memo of Perm.to_standard and the shared objects it
     hands out, and over interleavings of generators / rank calls):
   history    see StdHistory / RankHistory / GenHistory
@@ -484,6 +488,16 @@ def shard_adjacent(shard):
 # standardisation
 # --------------------------------------------------------------------------------------------
 
+def _Fr(a, b=1):
+    from fractions import Fraction
+    return Fraction(a, b)
+
+
+def _Dec(a):
+    from decimal import Decimal
+    return Decimal(a)
+
+
 def _mixed(i, v):
     if i % 3 == 0:
         return v
@@ -504,8 +518,12 @@ VARIANTS = {
     "big": (lambda i, v: v * 10 ** 20 - 5, "tuple"),
     "half": (lambda i, v: v / 2, "list"),
     "neg": (lambda i, v: v - 2, "tuple"),             # -1 and -2 have the same hash in CPython
+    "fraction": (lambda i, v: _Fr(v, 2), "tuple"),    # 0, 1/2, 1, 3/2 ...: integral and not
+    "decimal": (lambda i, v: _Dec(v) / 2, "list"),
+    "mixed_frac": (lambda i, v: (v, _Fr(v), float(v))[i % 3], "map"),
 }
-VARIANT_ORDER = ("int", "float", "affine", "str", "bool", "mixed", "pair", "big", "half", "neg")
+VARIANT_ORDER = ("int", "float", "affine", "str", "bool", "mixed", "pair", "big", "half", "neg",
+                 "fraction", "decimal", "mixed_frac")
 ENTRIES = ("to_standard", "standardize", "from_iterable")
 
 
@@ -522,6 +540,8 @@ def make_arg(seq, variant):
         return iter(vals)
     if cont == "str":
         return "".join(vals)
+    if cont == "map":
+        return map(lambda x: x, vals)
     raise ValueError(cont)
 
 
@@ -973,6 +993,624 @@ def check_mesh_reject(part, perm, r):
         part.outcomes.add("MeshPatt.unrank rejects with " + type(exc).__name__)
         return
     part.violation("mesh_reject", {"perm": perm, "r": r}, {"returned": repr(got)})
+
+
+# --------------------------------------------------------------------------------------------
+# FORMS : the same logical input in every argument form
+# --------------------------------------------------------------------------------------------
+
+def _std_containers(seq):
+    """(name, thunk building a NEW argument each time) for an int sequence."""
+    import array
+    import collections
+    seq = tuple(seq)
+    out = [("tuple", lambda: seq), ("list", lambda: list(seq)), ("iter", lambda: iter(list(seq))),
+           ("genexpr", lambda: (v for v in seq)), ("map", lambda: map(int, seq)),
+           ("reversed", lambda: reversed(seq[::-1])), ("deque", lambda: collections.deque(seq)),
+           ("array", lambda: array.array("q", seq)), ("bytes", lambda: bytes(seq)),
+           ("bytearray", lambda: bytearray(seq)), ("chain", lambda: itertools.chain(seq[:1], seq[1:])),
+           ("list_subclass", lambda: _ListSub(seq))]
+    if len(set(seq)) == len(seq):
+        out.append(("dict_keys", lambda: dict.fromkeys(seq).keys()))
+        out.append(("dict", lambda: dict.fromkeys(seq)))
+    if seq == tuple(range(len(seq))):
+        out.append(("range", lambda: range(len(seq))))
+    return out
+
+
+class _ListSub(list):
+    pass
+
+
+FORM_TYPES = {
+    "float": float,
+    "fraction": lambda v: _Fr(v),
+    "float_frac": lambda v: v + 0.5,
+    "fraction_frac": lambda v: _Fr(2 * v + 1, 2),
+    "str": lambda v: chr(97 + v),
+}
+
+
+def check_std_form(part, Perm, seq, cname, tname, how):
+    """how: 'pos' | 'kw' | alias name."""
+    seq = tuple(seq)
+    ref = R.std(seq)
+    case = {"seq": list(seq), "container": cname, "type": tname, "how": how}
+    try:
+        if tname == "int":
+            arg = dict(_std_containers(seq))[cname]()
+        else:
+            vals = [FORM_TYPES[tname](v) for v in seq]
+            arg = {"list": lambda: vals, "genexpr": lambda: (v for v in vals),
+                   "map": lambda: map(lambda x: x, vals), "tuple": lambda: tuple(vals)}[cname]()
+        if how == "pos":
+            got = Perm.to_standard(arg)
+        elif how == "kw":
+            got = Perm.to_standard(iterable=arg)
+        else:
+            got = getattr(Perm, how)(arg)
+    except Exception as exc:  # noqa
+        part.violation("std_forms", case, {"exception": repr(exc), "expected": ref})
+        return
+    if not is_perm_obj(Perm, got, ref):
+        part.violation("std_forms", case, {"expected": ref, "got": describe(got)})
+
+
+def std_form_plan(seq):
+    for cname, _ in _std_containers(seq):
+        yield cname, "int", "pos"
+    yield "tuple", "int", "kw"
+    yield "genexpr", "int", "standardize"
+    yield "list", "int", "from_iterable"
+    for tname in FORM_TYPES:
+        for cname in ("list", "genexpr", "map", "tuple"):
+            yield cname, tname, "pos"
+
+
+def shard_std_forms(shard):
+    a, length, lo, hi = shard
+    Perm = _P()
+    part = Part()
+    reset_hidden()
+    n = nt = 0
+    for seq in itertools.islice(itertools.product(range(a), repeat=length), lo, hi):
+        for cname, tname, how in std_form_plan(seq):
+            check_std_form(part, Perm, seq, cname, tname, how)
+            n += 1
+        if len(set(seq)) < len(seq):
+            nt += 1
+    part.add(n, nt)
+    return part
+
+
+def _validated_forms(t):
+    import array
+    import collections
+    t = tuple(t)
+    out = [("iter", lambda: iter(list(t))), ("map", lambda: map(int, t)),
+           ("deque", lambda: collections.deque(t)), ("reversed", lambda: reversed(t[::-1])),
+           ("array", lambda: array.array("q", t)), ("kw", None), ("list_subclass", lambda: _ListSub(t)),
+           ("perm_object", None)]
+    if all(0 <= v < 256 for v in t):
+        out.append(("bytes", lambda: bytes(t)))
+    if len(set(t)) == len(t):
+        out.append(("dict_keys", lambda: dict.fromkeys(t).keys()))
+    return out
+
+
+VALIDATED_TYPES = {
+    "float": float,
+    "fraction": lambda v: _Fr(v),
+    "decimal": lambda v: _Dec(v),
+    "str_elements": str,
+    "float_frac": lambda v: v + 0.5,
+}
+
+
+def check_validated_form(part, Perm, t, fname):
+    t = tuple(t)
+    exp = RC.is_bijection(t)
+    case = {"t": list(t), "form": fname}
+    try:
+        if fname == "kw":
+            got = Perm.from_iterable_validated(iterable=t)
+        elif fname == "perm_object":
+            got = Perm.from_iterable_validated(Perm(t))
+        elif fname in VALIDATED_TYPES:
+            # every entry replaced by an equal value of a non-integer type: never a permutation
+            vals = [VALIDATED_TYPES[fname](v) for v in t]
+            try:
+                got = Perm.from_iterable_validated(vals)
+            except TypeError:
+                return
+            except ValueError as exc:
+                if exp:       # the integers behind them ARE a bijection: only the type is wrong
+                    part.violation("validated_forms", case,
+                                   {"expected": "TypeError", "exception": repr(exc)})
+                return
+            part.violation("validated_forms", case,
+                           {"expected": "TypeError", "returned": describe(got)})
+            return
+        else:
+            got = Perm.from_iterable_validated(dict(_validated_forms(t))[fname]())
+    except ValueError as exc:
+        if exp:
+            part.violation("validated_forms", case, {"expected": "accepted", "exception": repr(exc)})
+        return
+    except Exception as exc:  # noqa
+        part.violation("validated_forms", case,
+                       {"expected": "accepted" if exp else "ValueError", "exception": repr(exc)})
+        return
+    if not exp:
+        part.violation("validated_forms", case, {"expected": "ValueError", "returned": describe(got)})
+    elif not is_perm_obj(Perm, got, t):
+        part.violation("validated_forms", case, {"expected": list(t), "returned": describe(got)})
+
+
+def shard_validated_forms(shard):
+    n, lo, hi = shard
+    Perm = _P()
+    part = Part()
+    cnt = nt = 0
+    for t in itertools.islice(itertools.product(range(-1, n + 1), repeat=n), lo, hi):
+        names = [f for f, _ in _validated_forms(t)]
+        if n >= 1:
+            names += list(VALIDATED_TYPES)
+        for fname in names:
+            check_validated_form(part, Perm, t, fname)
+            cnt += 1
+        nt += 1
+    part.add(cnt, nt)
+    return part
+
+
+def check_entry_forms(part):
+    """Keyword / positional / alias forms of the generators and of rank/unrank, and the argument
+    forms of one_based, MeshPatt(..., shading).rank() and MeshPatt.unrank/of_length."""
+    Perm, MeshPatt = _P(), _M()
+    ref = RC.graded(5)
+    n_cases = 0
+
+    def expect(name, thunk, exp, conv=lambda x: [tuple(v) for v in x]):
+        nonlocal n_cases
+        n_cases += 1
+        try:
+            got = conv(thunk())
+        except Exception as exc:  # noqa
+            part.violation("entry_forms", {"call": name}, {"exception": repr(exc)})
+            return
+        if got != exp:
+            part.violation("entry_forms", {"call": name}, {"expected": exp, "got": got})
+
+    one = lambda x: tuple(x)  # noqa: E731
+    for n in range(0, 5):
+        lp = list(RC.lex_perms(n))
+        expect("of_length(length=%d)" % n, lambda: Perm.of_length(length=n), lp)
+        expect("up_to_length(length=%d)" % n, lambda: Perm.up_to_length(length=n), RC.graded(n))
+    for k in (0, 1, 5, 34):
+        expect("first(count=%d)" % k, lambda: Perm.first(count=k), ref[:k])
+    for r in range(0, 34):
+        p = ref[r]
+        n = len(p)
+        rn = r - RC.offset(n)
+        expect("unrank(number=%d)" % r, lambda: Perm.unrank(number=r), p, one)
+        expect("unrank(%d, length=%d)" % (rn, n), lambda: Perm.unrank(rn, length=n), p, one)
+        expect("unrank(number=%d, length=%d)" % (rn, n),
+               lambda: Perm.unrank(number=rn, length=n), p, one)
+        expect("unrank(length=%d, number=%d)" % (n, rn),
+               lambda: Perm.unrank(length=n, number=rn), p, one)
+        expect("ind2perm(%d)" % r, lambda: Perm.ind2perm(r), p, one)
+        expect("unrank(%d, None)" % r, lambda: Perm.unrank(r, None), p, one)
+        expect("perm2ind %s" % (p,), lambda: Perm(p).perm2ind(), r, lambda x: x)
+        expect("Perm.rank(Perm(%s))" % (p,), lambda: Perm.rank(Perm(p)), r, lambda x: x)
+        expect("Perm(list).rank %s" % (p,), lambda: Perm(list(p)).rank(), r, lambda x: x)
+        expect("Perm(iter).rank %s" % (p,), lambda: Perm(iter(p)).rank(), r, lambda x: x)
+        ob = [v + 1 for v in p]
+        for fname, mk in (("tuple", lambda: tuple(ob)), ("iter", lambda: iter(ob)),
+                          ("map", lambda: map(int, ob)), ("kw", None)):
+            if fname == "kw":
+                expect("one_based(iterable=%s)" % (ob,), lambda: Perm.one_based(iterable=ob), p, one)
+            else:
+                expect("one_based(%s %s)" % (fname, ob), lambda: Perm.one_based(mk()), p, one)
+        for alias in ("one", "proper", "scientific"):
+            expect("%s(%s)" % (alias, ob), lambda: getattr(Perm, alias)(ob), p, one)
+    # shading forms for MeshPatt.rank, keyword forms of MeshPatt.unrank / of_length
+    for k in range(0, 3):
+        total = 1 << ((k + 1) ** 2)
+        for perm in RC.lex_perms(k):
+            P = Perm(perm)
+            for r in range(total):
+                cells = sorted(RC.shading_of_number(k, r))
+                forms = (("list", lambda: list(cells)), ("reversed_list", lambda: cells[::-1]),
+                         ("set", lambda: set(cells)), ("frozenset", lambda: frozenset(cells)),
+                         ("generator", lambda: (c for c in cells)),
+                         ("repeated", lambda: cells + cells[:1] + cells[-1:]),
+                         ("tuple", lambda: tuple(cells)), ("dict_keys", lambda: dict.fromkeys(cells)))
+                for fname, mk in forms:
+                    expect("MeshPatt(%s, %s %d).rank()" % (perm, fname, r),
+                           lambda: MeshPatt(P, mk()).rank(), r, lambda x: x)
+                expect("MeshPatt(pattern=, shading=) %s %d" % (perm, r),
+                       lambda: MeshPatt(pattern=P, shading=cells).rank(), r, lambda x: x)
+                expect("MeshPatt.unrank(pattern=, number=) %s %d" % (perm, r),
+                       lambda: MeshPatt.unrank(pattern=P, number=r).shading,
+                       RC.shading_of_number(k, r), frozenset)
+                expect("MeshPatt.unrank(tuple-built Perm) %s %d" % (perm, r),
+                       lambda: MeshPatt.unrank(Perm(list(perm)), r).shading,
+                       RC.shading_of_number(k, r), frozenset)
+        if k <= 1:
+            exp = [(tuple(perm), r) for perm in RC.lex_perms(k) for r in range(total)]
+            expect("MeshPatt.of_length(length=%d)" % k, lambda: MeshPatt.of_length(length=k), exp,
+                   lambda it: [(tuple(m.pattern), RC.number_of_shading(k, m.shading)) for m in it])
+            for perm in RC.lex_perms(k):
+                expect("MeshPatt.of_length(length=%d, patt=%s)" % (k, perm),
+                       lambda: MeshPatt.of_length(length=k, patt=Perm(perm)),
+                       [(tuple(perm), r) for r in range(total)],
+                       lambda it: [(tuple(m.pattern), RC.number_of_shading(k, m.shading))
+                                   for m in it])
+    return n_cases
+
+
+def shard_entry_forms(shard):
+    which, = shard
+    part = Part()
+    if which == 0:
+        n = check_entry_forms(part)
+        part.add(n, n)
+    return part
+
+
+# --------------------------------------------------------------------------------------------
+# FRESH : damage whatever mutable container a query hands out, ask again
+# --------------------------------------------------------------------------------------------
+
+def _alias_queries():
+    Perm, MeshPatt = _P(), _M()
+    g = RC.graded(4)
+    conv = lambda it: [tuple(x) for x in it]  # noqa: E731
+    mconv = lambda it: [(tuple(m.pattern), tuple(sorted(m.shading))) for m in it]  # noqa: E731
+    out = []
+    for n in range(0, 5):
+        lp = list(RC.lex_perms(n))
+        out.append(("of_length(%d)" % n, lp, conv,
+                    [lambda n=n: Perm.of_length(n), lambda n=n: Perm.of_length(length=n),
+                     lambda n=n: (p for p in Perm.up_to_length(n) if len(p) == n),
+                     lambda n=n: itertools.islice(Perm.first(RC.offset(n + 1)), RC.offset(n), None)]))
+    for n in range(0, 4):
+        out.append(("up_to_length(%d)" % n, RC.graded(n), conv,
+                    [lambda n=n: Perm.up_to_length(n), lambda n=n: Perm.first(RC.offset(n + 1))]))
+    for k in (0, 1, 5, 10, 34):
+        out.append(("first(%d)" % k, g[:k], conv,
+                    [lambda k=k: Perm.first(k), lambda k=k: Perm.first(count=k),
+                     lambda k=k: itertools.islice(Perm.up_to_length(4), k)]))
+    for k in (0, 1):
+        total = 1 << ((k + 1) ** 2)
+        exp = [(tuple(p), tuple(sorted(RC.shading_of_number(k, r))))
+               for p in RC.lex_perms(k) for r in range(total)]
+        out.append(("MeshPatt.of_length(%d)" % k, exp, mconv,
+                    [lambda k=k: MeshPatt.of_length(k),
+                     lambda k=k: (m for p in Perm.of_length(k) for m in MeshPatt.of_length(k, p))]))
+    for perm, r in (((0,), 9), ((1, 0), 386), ((), 1)):
+        exp = sorted(RC.shading_of_number(len(perm), r))
+        out.append(("MeshPatt.unrank(%s, %d).shading" % (perm, r), exp, lambda x: sorted(x),
+                    [lambda perm=perm, r=r: MeshPatt.unrank(Perm(perm), r).shading,
+                     lambda perm=perm, r=r: next(itertools.islice(
+                         MeshPatt.of_length(len(perm), Perm(perm)), r, None)).shading]))
+    for seq in ((1, 0, 2), (0, 0, 1), ()):
+        out.append(("to_standard(%s)" % (seq,), list(R.std(seq)), list,
+                    [lambda seq=seq: Perm.to_standard(seq), lambda seq=seq: Perm.standardize(list(seq)),
+                     lambda seq=seq: Perm.to_standard(tuple(float(v) for v in seq))]))
+    for r in (0, 5, 33):
+        out.append(("unrank(%d)" % r, list(g[r]), list,
+                    [lambda r=r: Perm.unrank(r), lambda r=r: Perm.ind2perm(r)]))
+    return out
+
+
+DAMAGES = ("clear", "append", "reverse", "pop")
+
+
+def _damage(obj, how):
+    """In-place damage of a mutable container (and of mutable members); False if obj is not one."""
+    import collections
+    done = False
+    if isinstance(obj, (list, collections.deque, bytearray)):
+        if how == "clear":
+            obj.clear()
+        elif how == "append":
+            obj.append(obj[0] if len(obj) else 0)
+        elif how == "reverse":
+            obj.reverse()
+            done = len(obj) > 1
+            if not done:
+                obj.append(0)
+        elif how == "pop" and len(obj):
+            obj.pop()
+        done = True
+    elif isinstance(obj, set):
+        if how == "clear" or not obj:
+            obj.clear()
+            obj.add(("damaged",))
+        else:
+            obj.pop()
+        done = True
+    elif isinstance(obj, dict):
+        obj.clear()
+        done = True
+    return done
+
+
+def check_aliasing(part, half=None):
+    """For every query: take what it returns.  If that is a mutable container (list, deque, set,
+    dict - the library returns generators / tuples / frozensets today) it is compared, damaged in
+    place in each of DAMAGES, and the query is repeated along every route; an iterator is
+    consumed and the routes are asked again.  Nested members are damaged as well."""
+    n = 0
+    for qi, (name, exp, conv, routes) in enumerate(_alias_queries()):
+        if half is not None and qi % 2 != half:
+            continue
+        for ri in range(len(routes)):
+            for how in DAMAGES:
+                n += 1
+                case = {"query": name, "route": ri, "damage": how}
+                try:
+                    res = routes[ri]()
+                    got = conv(res) if not isinstance(res, (list, set, dict)) else conv(list(res))
+                    if got != exp:
+                        part.violation("aliasing", case, {"stage": "first answer",
+                                                          "expected": exp, "got": got})
+                        continue
+                    damaged = _damage(res, how)
+                    if isinstance(res, (list, tuple)):
+                        for member in res:
+                            damaged = _damage(member, how) or damaged
+                            damaged = _damage(getattr(member, "shading", None), how) or damaged
+                    if damaged:
+                        part.bump("aliasing_containers_damaged")
+                    for rj in range(len(routes)):
+                        again = routes[rj]()
+                        got = conv(list(again)) if isinstance(again, (list, set, dict)) \
+                            else conv(again)
+                        if got != exp:
+                            part.violation("aliasing", case,
+                                           {"stage": "asked again by route %d" % rj,
+                                            "damaged_a_container": damaged,
+                                            "expected": exp, "got": got})
+                            break
+                except Exception as exc:  # noqa
+                    part.violation("aliasing", case, {"exception": repr(exc)})
+    return n
+
+
+def shard_aliasing(shard):
+    half, = shard
+    part = Part()
+    reset_hidden()
+    n = check_aliasing(part, half)
+    part.add(n, n)
+    return part
+
+
+# --------------------------------------------------------------------------------------------
+# ABORT : an exception out of the middle of an operation (bound: one injection per execution)
+# --------------------------------------------------------------------------------------------
+
+class _Abort(BaseException):
+    pass
+
+
+def _run_with_abort(fn, k, root):
+    """Run fn(); raise _Abort at the k-th 'call' event of a frame whose code lives under root
+    (k = None: never).  Returns (finished?, number of such events seen)."""
+    seen = [0]
+
+    def tracer(frame, event, arg):
+        if event == "call" and frame.f_code.co_filename.startswith(root):
+            seen[0] += 1
+            if seen[0] == k:
+                sys.settrace(None)
+                raise _Abort()
+        return None
+
+    sys.settrace(tracer)
+    try:
+        fn()
+        return True, seen[0]
+    except _Abort:
+        return False, seen[0]
+    finally:
+        sys.settrace(None)
+
+
+ABORT_KEYS = [((1, 0, 2), "tuple"), ((1.0, 0.0, 2.0), "list"), ((5, 3, 9), "gen"), ("bac", "str"),
+              ((1, 0, 1), "tuple"), ((1, 3, 0, 2), "tuple"), ((), "tuple"), ((0.0,), "tuple")]
+ABORT_TEXT = (2, 1, 0, 3, 4)
+ABORT_OPS = ([("std", i) for i in range(len(ABORT_KEYS))]
+             + [("patt_shared", i) for i in (0, 1, 5)] + [("patt_own", i) for i in (0, 5)]
+             + [("text_shared", 5)] + [("inv", 0), ("inv", 5)]
+             + [("unrank", r) for r in (0, 4, 34, 153)]
+             + [("unrank_n", 5, 3), ("unrank_n", 0, 4), ("unrank_n", 119, 5)]
+             + [("rank", 2), ("rank", 4), ("rank", 5)]
+             + [("first", 6), ("first", 12), ("up_to_length", 2), ("of_length", 3)]
+             + [("two_firsts", 4, 7)]
+             + [("mesh_unrank", 2), ("mesh_rank", 2), ("mesh_of_length", 1)]
+             + [("from_integer", 213), ("validated", 0), ("from_string", 0), ("one_based", 0),
+                ("str_repr", 5)])
+ABORT_STATES = ("fresh", "warm")
+
+
+class AbortRig:
+    """One prepared situation: the objects an operation works on, the operation itself, and the
+    read-back battery (same objects, fresh equal objects, related observers)."""
+
+    def __init__(self, state, op):
+        self.state, self.op = state, tuple(op)
+        self.Perm, self.MeshPatt = _P(), _M()
+        self.rh = RankHistory()
+        Perm = self.Perm
+        reset_hidden()
+        if state == "warm":
+            self.battery(None)
+        kind = self.op[0]
+        self.shared = self.own = None
+        if kind in ("patt_shared", "text_shared", "inv"):
+            self.shared = Perm.to_standard(make_key(ABORT_KEYS[self.op[1]]))
+        if kind == "patt_own":
+            self.own = Perm(R.std(tuple(make_key(ABORT_KEYS[self.op[1]]))))
+
+    def run(self):
+        Perm, MeshPatt, op = self.Perm, self.MeshPatt, self.op
+        kind = op[0]
+        if kind == "std":
+            Perm.to_standard(make_key(ABORT_KEYS[op[1]]))
+        elif kind == "patt_shared":
+            list(self.shared.occurrences_in(Perm(ABORT_TEXT)))
+        elif kind == "patt_own":
+            list(self.own.occurrences_in(Perm(ABORT_TEXT)))
+        elif kind == "text_shared":
+            list(Perm((1, 0)).occurrences_in(self.shared))
+        elif kind == "inv":
+            self.shared.inverse()
+        elif kind == "unrank":
+            Perm.unrank(op[1])
+        elif kind == "unrank_n":
+            Perm.unrank(op[1], op[2])
+        elif kind == "rank":
+            Perm(self.rh.RANK[op[1]]).rank()
+        elif kind in ("first", "up_to_length", "of_length"):
+            for _ in getattr(Perm, kind)(op[1]):
+                pass
+        elif kind == "two_firsts":
+            a, b = Perm.first(op[1]), Perm.first(op[2])
+            for _ in itertools.zip_longest(a, b):
+                pass
+        elif kind == "mesh_unrank":
+            perm, r = self.rh.MESH[op[1]]
+            MeshPatt.unrank(Perm(perm), r)
+        elif kind == "mesh_rank":
+            perm, r = self.rh.MESH[op[1]]
+            MeshPatt(Perm(perm), sorted(RC.shading_of_number(len(perm), r))).rank()
+        elif kind == "mesh_of_length":
+            for _ in MeshPatt.of_length(op[1]):
+                pass
+        elif kind == "from_integer":
+            Perm.from_integer(op[1])
+        elif kind == "validated":
+            Perm.from_iterable_validated((1, 0, 2))
+        elif kind == "from_string":
+            Perm.from_string("1302")
+        elif kind == "one_based":
+            Perm.one_based((2, 4, 1, 3))
+        elif kind == "str_repr":
+            p = Perm.to_standard(make_key(ABORT_KEYS[op[1]]))
+            str(p), repr(p)
+        else:
+            raise ValueError(kind)
+
+    def battery(self, after):
+        """None, or the first disagreement with the reference.  `after` = this rig (its shared /
+        own objects are queried again) or None."""
+        Perm, MeshPatt, rh = self.Perm, self.MeshPatt, self.rh
+        text = ABORT_TEXT
+
+        def bad(what, exp, got):
+            return {"observer": what, "expected": exp, "got": got}
+        if after is not None:
+            kind = self.op[0]
+            if kind != "std" or True:
+                self.run()                                   # the very same operation again
+            for obj in (self.shared, self.own):
+                if obj is not None:
+                    ref = tuple(int(v) for v in obj)
+                    got = list(obj.occurrences_in(Perm(text)))
+                    if got != R.occurrences(ref, text):
+                        return bad("search with the object the operation worked on",
+                                   R.occurrences(ref, text), got)
+                    if not is_perm_obj(Perm, obj.inverse(), R.inverse(ref)):
+                        return bad("inverse of that object", R.inverse(ref), describe(obj.inverse()))
+        for spec in ABORT_KEYS:
+            ref = R.std(tuple(make_key(spec)))
+            got = Perm.to_standard(make_key(spec))
+            if not is_perm_obj(Perm, got, ref):
+                return bad("to_standard(%r)" % (spec,), ref, describe(got))
+            occ = list(got.occurrences_in(Perm(text)))
+            if occ != R.occurrences(ref, text):
+                return bad("search with to_standard(%r)" % (spec,), R.occurrences(ref, text), occ)
+            fresh = list(Perm(ref).occurrences_in(Perm(text)))
+            if fresh != R.occurrences(ref, text):
+                return bad("search with fresh Perm(%r)" % (ref,), R.occurrences(ref, text), fresh)
+        for r in rh.UNRANK:
+            got = Perm.unrank(r)
+            if not is_perm_obj(Perm, got, rh.ref[r]):
+                return bad("unrank(%d)" % r, rh.ref[r], describe(got))
+            if Perm(rh.ref[r]).rank() != r:
+                return bad("rank(%r)" % (rh.ref[r],), r, Perm(rh.ref[r]).rank())
+        for r, n in rh.UNRANK_N:
+            exp = rh.ref[RC.offset(n) + r]
+            got = Perm.unrank(r, n)
+            if not is_perm_obj(Perm, got, exp):
+                return bad("unrank(%d, %d)" % (r, n), exp, describe(got))
+        for name, arg, exp in (("first", 12, rh.ref[:12]), ("first", 34, rh.ref[:34]),
+                               ("of_length", 3, list(RC.lex_perms(3))),
+                               ("up_to_length", 3, RC.graded(3))):
+            got = [tuple(x) for x in getattr(Perm, name)(arg)]
+            if got != exp:
+                return bad("%s(%d)" % (name, arg), exp, got)
+        for perm, r in rh.MESH:
+            bij, lay = mesh_case(Perm, MeshPatt, perm, r)
+            if bij or lay:
+                return bad("MeshPatt.unrank/rank(%r, %d)" % (perm, r), None, [bij, lay])
+        tmp = Partial()
+        check_mesh_of_length(tmp, 1, None)
+        if tmp.viols:
+            return bad("MeshPatt.of_length(1)", None, tmp.viols[0]["detail"])
+        if tuple(Perm.from_integer(213)) != (1, 0, 2) or \
+                tuple(Perm.from_iterable_validated((1, 0, 2))) != (1, 0, 2):
+            return bad("from_integer / from_iterable_validated", None, None)
+        return None
+
+
+def abort_case(state, op, k, root):
+    """Returns (detail or None, finished?, total events)."""
+    import signal
+    rig = AbortRig(state, op)
+    finished, total = _run_with_abort(rig.run, k, root)
+    if k is None:
+        return None, finished, total
+
+    def on_alarm(signum, frame):
+        raise TimeoutError("read-back did not finish within 20 s")
+    old = signal.signal(signal.SIGALRM, on_alarm)
+    signal.alarm(20)
+    try:
+        d = rig.battery(rig)
+    except TimeoutError as exc:
+        d = {"hang": str(exc)}
+    except Exception as exc:  # noqa
+        d = {"exception_in_read_back": repr(exc)}
+    finally:
+        signal.alarm(0)
+        signal.signal(signal.SIGALRM, old)
+    return d, finished, total
+
+
+def shard_abort(shard):
+    state, op = shard
+    part = Part()
+    root = os.path.join(os.path.abspath(REPO), "permuta") + os.sep
+    old_hook = sys.unraisablehook
+    sys.unraisablehook = lambda unraisable: None
+    try:
+        _, _, total = abort_case(state, op, None, root)
+        for k in range(1, total + 1):
+            d, finished, _ = abort_case(state, op, k, root)
+            if d is not None:
+                part.violation("abort", {"state": state, "op": list(op), "abort_at_call": k}, d)
+            part.add(1, 0 if finished else 1)
+    finally:
+        sys.settrace(None)
+        sys.unraisablehook = old_hook
+        reset_hidden()
+    part.bump("abort_points", total)
+    return part, total
 
 
 # --------------------------------------------------------------------------------------------
@@ -1864,6 +2502,56 @@ def run(ctx, only=None):
                                    "each permutation of length <= %d replaced by each of %s"
                                    % (vn, 4 if quick else 5, sorted(BAD_VALUES)))
         ctx.section("validated", evaluations=ctx.evals - e0)
+    if want("forms"):
+        e0 = ctx.evals
+        fa, fl = (4, 5) if quick else (5, 6)
+        shards = [(fa, length, lo, hi) for length in range(0, fl + 1)
+                  for lo, hi in chunks(fa ** length, 500)]
+        ctx.pmap(shard_std_forms, shards)
+        vn = 4 if quick else 5
+        ctx.pmap(shard_validated_forms, [(n, lo, hi) for n in range(0, vn + 1)
+                                         for lo, hi in chunks((n + 2) ** n, 2000)])
+        ctx.pmap(shard_entry_forms, [(0,), (1,)])  # (1,) is empty: forces a forked worker
+        ctx.bounds["forms"] = {
+            "to_standard": "all sequences over {0..%d} of length <= %d x containers (tuple, list, "
+                           "iter, generator expression, map, reversed, deque, array, bytes, "
+                           "bytearray, chain, list subclass, dict / dict keys when distinct, "
+                           "range when it is one) with int entries, keyword argument, both aliases; "
+                           "x element types %s in list/generator/map/tuple"
+                           % (fa - 1, fl, sorted(FORM_TYPES)),
+            "from_iterable_validated": "all tuples over {-1..n}^n, n <= %d x forms (iter, map, "
+                                       "deque, reversed, array, bytes, dict keys, list subclass, "
+                                       "Perm object, keyword) accept iff bijection else ValueError; "
+                                       "every entry as %s -> TypeError (ValueError allowed when the "
+                                       "integers are no bijection)" % (vn, sorted(VALIDATED_TYPES)),
+            "entry_points": "keyword/positional/alias forms of of_length, up_to_length, first, "
+                            "unrank (all ranks < 34), rank, one_based; MeshPatt(...).rank() for "
+                            "every shading of every pattern of length <= 2 given as list, reversed "
+                            "list, set, frozenset, generator, with repeated cells, tuple, dict; "
+                            "keyword forms of MeshPatt, MeshPatt.unrank, MeshPatt.of_length"}
+        ctx.section("forms", evaluations=ctx.evals - e0)
+    if want("aliasing"):
+        e0 = ctx.evals
+        ctx.pmap(shard_aliasing, [(0,), (1,)])     # two shards: never run in the parent process
+        ctx.bounds["aliasing"] = ("%d queries (generators, MeshPatt.of_length, shading of "
+                                  "MeshPatt.unrank, to_standard, unrank) x every route x damages "
+                                  "%s: whatever mutable container is handed out is damaged in "
+                                  "place, then every route is asked again"
+                                  % (len(_alias_queries()), list(DAMAGES)))
+        ctx.section("aliasing", evaluations=ctx.evals - e0,
+                    containers_damaged=ctx.counters.get("aliasing_containers_damaged", 0))
+    if want("abort"):
+        e0 = ctx.evals
+        totals = ctx.pmap(shard_abort, [(st, op) for st in ABORT_STATES for op in ABORT_OPS])
+        npoints = sum(t for t in totals if t)
+        ctx.traces += npoints
+        ctx.bounds["abort"] = {"operations": [list(op) for op in ABORT_OPS],
+                               "starting_states": list(ABORT_STATES),
+                               "injection_points": npoints,
+                               "injection": "_Abort(BaseException) at the k-th call event inside "
+                                            "permuta/, every k; then the same operation again, the "
+                                            "objects it worked on, and the whole read-back battery"}
+        ctx.section("abort", injection_points=npoints, evaluations=ctx.evals - e0)
     if want("mesh"):
         e0 = ctx.evals
         shards = [("all", p) for k in (0, 1, 2) for p in RC.lex_perms(k)]
@@ -2004,6 +2692,37 @@ def replay_once(part, rec):
             d = rank_case(Perm, r, p)
             if d is not None:
                 part.violation("rank", case, d)
+    elif sub == "std_forms":
+        check_std_form(part, Perm, tuple(case["seq"]), case["container"], case["type"], case["how"])
+    elif sub == "validated_forms":
+        check_validated_form(part, Perm, tuple(case["t"]), case["form"])
+    elif sub == "entry_forms":
+        tmp = Partial()
+        tmp.MAXV = 10 ** 6
+        check_entry_forms(tmp)
+        for v in tmp.viols:
+            if v["case"] == case:
+                part.violation(sub, case, v["detail"])
+                break
+    elif sub == "aliasing":
+        tmp = Partial()
+        tmp.MAXV = 10 ** 6
+        reset_hidden()
+        check_aliasing(tmp)
+        for v in tmp.viols:
+            if v["case"] == case:
+                part.violation(sub, case, v["detail"])
+                break
+    elif sub == "abort":
+        root = os.path.join(os.path.abspath(REPO), "permuta") + os.sep
+        old_hook = sys.unraisablehook
+        sys.unraisablehook = lambda unraisable: None
+        try:
+            d, _, _ = abort_case(case["state"], tuple(case["op"]), case["abort_at_call"], root)
+        finally:
+            sys.unraisablehook = old_hook
+        if d is not None:
+            part.violation(sub, case, d)
     elif sub == "scale_rank":
         n, r = case["n"], case["r"]
         d = rank_case(Perm, RC.offset(n) + r, RC.lehmer_unrank(r, n))
